@@ -170,8 +170,9 @@ Step(e) ==
          /\ Check("C05", <<"cancelled-or-failed-script-reported-as-completed", e.t>>,
                   e.res = "completed" => lastFin[e.t] = "ok")
          /\ lastRes' = [lastRes EXCEPT ![e.t] = e.res]
-         /\ ready' = IF e.res \in {"completed", "skipped"} THEN [ready EXCEPT ![e.t] = TRUE] ELSE ready
-         /\ failed' = IF e.res = "failed" THEN [failed EXCEPT ![e.t] = TRUE]
+         \* readiness follows what the script actually did (its exit as observed), not what the actor made of it
+         /\ ready' = IF e.res \in {"completed", "skipped"} /\ lastFin[e.t] \notin {"fail", "cancelled"} THEN [ready EXCEPT ![e.t] = TRUE] ELSE ready
+         /\ failed' = IF e.res = "failed" \/ (e.res # "skipped" /\ lastFin[e.t] = "fail") THEN [failed EXCEPT ![e.t] = TRUE]
                       ELSE IF e.res \in {"completed", "skipped"} THEN [failed EXCEPT ![e.t] = FALSE] ELSE failed
          /\ Keep(<<g, word, nStart, nSkip, inst, shells, ver, gen, builtFrom, sees, signalled, rootErr, waited, begunOK, lastFin>>)
     [] e.e = "svcstart" ->
